@@ -9,6 +9,7 @@ import (
 	"os"
 	"runtime"
 	"runtime/debug"
+	"strconv"
 	"strings"
 	"testing"
 	"testing/synctest"
@@ -179,6 +180,7 @@ func Main(t *testing.T, props []*Prop) {
 			sc := prop.Gen(rs, job.Tier)
 			sc.Property = job.Property
 			sc.RunSeed = rs
+			debugOverrides(sc)
 			out := exec(sc, job.Trace)
 			rec := Record{Kind: "end", Run: idx, RunSeed: rs, Outcome: out, WallMs: float64(time.Since(t0).Microseconds()) / 1000}
 			if out.Violation != nil || out.Infra != "" {
@@ -205,6 +207,7 @@ func Main(t *testing.T, props []*Prop) {
 		sc := prop.Gen(rs, job.Tier)
 		sc.Property = job.Property
 		sc.RunSeed = rs
+		debugOverrides(sc)
 		emit(Record{Kind: "end", Run: job.Start, RunSeed: rs, Outcome: &Outcome{}, Scenario: sc})
 		emit(Record{Kind: "done"})
 	case "minimise":
@@ -246,5 +249,24 @@ func Main(t *testing.T, props []*Prop) {
 		emit(Record{Kind: "done"})
 	default:
 		t.Fatalf("unknown mode %q", job.Mode)
+	}
+}
+
+// debugOverrides pins knobs of generated scenarios from VSIM_FORCE_KNOBS ("k=v,k=v"): a debugging
+// aid for aiming a batch of runs at one configuration; unset in every registered check.
+func debugOverrides(sc *gen.Scenario) {
+	v := os.Getenv("VSIM_FORCE_KNOBS")
+	if v == "" || sc == nil {
+		return
+	}
+	for _, kv := range strings.Split(v, ",") {
+		k, val, ok := strings.Cut(kv, "=")
+		if !ok {
+			continue
+		}
+		n, err := strconv.ParseInt(val, 10, 64)
+		if err == nil {
+			sc.Knobs[k] = n
+		}
 	}
 }
